@@ -66,7 +66,7 @@ Section Plan.
   (* T3's req_covers is a theorem: a feature-group step requires every proper ancestor of its features *)
   Theorem planB_req_covers : req_covers (steps_of (plan_B ord g)) (adj_of g) = true.
   Proof.
-    destruct (raw_facts ord g Hord Hok Hgc) as (_ & _ & _ & F4).
+    destruct (raw_facts ord g Hord Hok Hgc) as (_ & _ & _ & F4 & _).
     destruct (planB_raw_facts ord g Hord Hok Hgc) as (_ & _ & _ & B4 & _).
     unfold req_covers. apply forallb_forall. intros s Hs. apply in_steps_of in Hs. destruct Hs as [b [Hb E]]. subst s.
     destruct (in_plan_B b Hb) as (j & b0 & _ & Eb & Hb0). subst b. cbn [bs bset_sid]. unfold set_sid. cbn [skind uuids req].
